@@ -1,4 +1,141 @@
 /-
-  C14 — history independence.  Property theorems only (filled in as proofs land).
+  C14 — history independence of a graph object and of the copies derived from it (model `CvModel/Session.lean`).
+  Property theorems only; proofs in `CvProofs/Session.lean`.
+
+  The semantic functions (`Compute`: what a BFS, a path query, … return for given immutable parameters) are universally
+  quantified: the theorems are about the bookkeeping — object allocation, the cached inverted copy, the cached ball of
+  `find_path`, copies — and hold for all of them.
+
+  An output that is a graph object is observed through its immutable part (`view`): the raw reference depends on the
+  allocation order, its content does not.
+
+  Findings recorded here by `example`:
+  * with a ball cache that is NOT keyed by the BFS limits (`stepWith false`, the code before the repair of `find_path`)
+    history independence fails: after `find_path(max_diameter=1)` a later `find_path()` answers from the radius-1 ball.
+  * `modified_copy` does not pass `batch_size` on: the copy has the constructor default (`Compute.defaultBatch`), only
+    encoder and hasher are shared.  (Batching does not change results, so this is an observation, not a defect.)
 -/
-import CvModel.Paths
+import CvProofs.Session
+namespace Cv.Session
+
+section
+variable {Def Enc Hasher Arg Res : Type}
+
+/-- for every history `ops` and every operation `op` on an object `o` that exists after `ops`: the output of `op` equals
+its output on the fresh session whose only object has the immutable part of `o` (same definition, same encoder, same
+hasher and seed) -/
+theorem history_independent (c : Compute Def Enc Hasher Arg Res) (root : Imm Def Enc Hasher)
+    (ops : List (Op Def Arg Res)) (op : Op Def Arg Res) (o : Obj Def Enc Hasher Res)
+    (ho : (run c (fresh root) ops).objs[op.target]? = some o) :
+    view (step c (run c (fresh root) ops) op) = view (step c (fresh o.imm) (op.retarget 0)) := by
+  exact history_independent' c root ops op o ho
+
+/-- … in particular for the root object: whatever came before, it answers as the freshly constructed graph does -/
+theorem history_independent_root (c : Compute Def Enc Hasher Arg Res) (root : Imm Def Enc Hasher)
+    (ops : List (Op Def Arg Res)) (op : Op Def Arg Res) (ht : op.target = 0) :
+    view (step c (run c (fresh root) ops) op) = view (step c (fresh root) op) := by
+  exact history_independent_root' c root ops op ht
+
+/-- the invariant form: "every cache entry equals what a fresh computation with its key produces" (`Inv`) is all that is
+needed of the session -/
+theorem history_independent_inv (c : Compute Def Enc Hasher Arg Res) (s : Session Def Enc Hasher Res)
+    (op : Op Def Arg Res) (o : Obj Def Enc Hasher Res) (hinv : Inv c s) (ho : s.objs[op.target]? = some o) :
+    view (step c s op) = view (step c (fresh o.imm) (op.retarget 0)) := by
+  exact history_independent_of_inv c s op o hinv ho
+
+/-- the invariant holds initially and is kept by every operation; no operation changes an immutable part -/
+theorem invariant_kept (c : Compute Def Enc Hasher Arg Res) (root : Imm Def Enc Hasher)
+    (ops : List (Op Def Arg Res)) :
+    Inv c (run c (fresh root) ops) ∧ Ext (fresh root) (run c (fresh root) ops) := by
+  exact run_inv c (fresh root) ops (inv_fresh c root)
+
+/-- immutable parts never change: definition, encoder, hasher, batch size of object `k` are the same after any further
+operations -/
+theorem imm_stable (c : Compute Def Enc Hasher Arg Res) (root : Imm Def Enc Hasher)
+    (ops ops' : List (Op Def Arg Res)) (k : ObjId) (o : Obj Def Enc Hasher Res)
+    (ho : (run c (fresh root) ops).objs[k]? = some o) :
+    ∃ o' : Obj Def Enc Hasher Res, (run c (fresh root) (ops ++ ops')).objs[k]? = some o' ∧ o'.imm = o.imm := by
+  exact imm_stable' c root ops ops' k o ho
+
+/-- every object created by `takeInverted` / `modifiedCopy` has the same `enc` and `hasher` as its origin -/
+theorem copies_share_hashing (c : Compute Def Enc Hasher Arg Res) (s : Session Def Enc Hasher Res) (k : ObjId)
+    (o : Obj Def Enc Hasher Res) (hinv : Inv c s) (ho : s.objs[k]? = some o) :
+    (∃ (id : ObjId) (o' : Obj Def Enc Hasher Res), (step c s (.takeInverted k)).2 = .obj id ∧
+      (step c s (.takeInverted k)).1.objs[id]? = some o' ∧
+      o'.defn = c.invert o.defn ∧ o'.enc = o.enc ∧ o'.hasher = o.hasher) ∧
+    (∀ d : Def, ∃ (id : ObjId) (o' : Obj Def Enc Hasher Res), (step c s (.modifiedCopy k d)).2 = .obj id ∧
+      (step c s (.modifiedCopy k d)).1.objs[id]? = some o' ∧
+      o'.defn = d ∧ o'.enc = o.enc ∧ o'.hasher = o.hasher) := by
+  exact ⟨takeInverted_shares c s k o hinv ho, fun d => modifiedCopy_shares c s k o d ho⟩
+
+/-- hence every object of a session — copies of copies included — encodes and hashes like the root: results obtained
+on any of them can be combined -/
+theorem all_share_root (c : Compute Def Enc Hasher Arg Res) (root : Imm Def Enc Hasher)
+    (ops : List (Op Def Arg Res)) :
+    ∀ o ∈ (run c (fresh root : Session Def Enc Hasher Res) ops).objs, o.enc = root.enc ∧ o.hasher = root.hasher := by
+  exact all_share_root' c root ops
+
+/-- `with_inverted_generators` is cached: asking again returns the same reference and changes nothing -/
+theorem inverted_copy_cached (c : Compute Def Enc Hasher Arg Res) (s : Session Def Enc Hasher Res) (k : ObjId)
+    (o : Obj Def Enc Hasher Res) (ho : s.objs[k]? = some o) :
+    step c (step c s (.takeInverted k)).1 (.takeInverted k) =
+      ((step c s (.takeInverted k)).1, (step c s (.takeInverted k)).2) := by
+  exact takeInverted_twice c s k o ho
+
+end
+
+/-! ### a concrete instance (non-vacuity) and the un-keyed cache -/
+
+/-- a toy semantics over numbers: definitions are numbered, inverting adds 1, even definitions are inverse-closed; a BFS
+"returns" `1000 * definition + options`, the ball options are the diameter of the key, a MITM query returns
+`ball + start + 7 * (number of inverted copies it saw)` and always looks at the inverted copy -/
+def toy : Compute Nat Nat Nat Nat Nat :=
+  { invert := fun d => d + 1, invClosed := fun d => d % 2 == 0, hasModel := fun _ => false, defaultBatch := 1024,
+    bfs := fun i a => 1000 * i.defn + a, ballOpts := fun key => key.2,
+    pathFrom := fun _ ch start ball => ball + start + 7 * ch.length,
+    revPathTo := fun _ ch start ball => ball + start + 7 * ch.length,
+    mitmDepth := fun _ _ _ => 1,
+    pathQuery := fun i ch q ball => i.defn + q + ball + 7 * ch.length, pathQueryDepth := fun _ _ _ => 2,
+    beam := fun i ch a => i.defn + a + 7 * ch.length, beamDepth := fun _ _ => 0,
+    modelBeamArgs := fun a _ => a, walks := fun i a d => i.defn + a + d, exportGraph := fun i a => i.defn + a }
+
+def toyRoot : Imm Nat Nat Nat := ⟨2, 5, 42, 64⟩
+
+/-- a history touching everything: a path search with limits (caches a ball and the inverted copy), a path query (goes
+two copies deep), a modified copy, a search on the (not inverse-closed) inverted copy, … -/
+def toyOps : List (Op Nat Nat Nat) :=
+  [.findPath 0 3 { maxDiameter := some 1 }, .pathQuery 0 1 2, .modifiedCopy 0 9, .takeInverted 0,
+   .findPath 1 4 { maxDiameter := some 3 }, .bfs 3 0, .findPath 1 4 {}]
+
+/-- non-vacuity of `history_independent`: after `toyOps` object 1 is the inverted copy (definition 3, shared encoder 5
+and hasher 42, default batch), and it carries a cached inverted copy of its own (object 2, which holds the ball that
+`find_path` on object 1 computed: the ball of a graph that is not inverse-closed lives on its inverted copy) -/
+example : ((run toy (fresh toyRoot) toyOps).objs[1]?).map (fun o => (o.imm.defn, o.imm.enc, o.imm.hasher,
+    o.imm.batch, o.invertedCache)) = some (3, 5, 42, 1024, some 2) := by decide
+example : (run toy (fresh toyRoot) toyOps).objs.length = 5 := by decide
+/-- … `find_path` on it with new limits after the history = on a fresh object with the same immutable part -/
+example : view (step toy (run toy (fresh toyRoot) toyOps) (.findPath 1 4 { maxDiameter := some 2 })) =
+    view (step toy (fresh ⟨3, 5, 42, 1024⟩) (.findPath 0 4 { maxDiameter := some 2 })) :=
+  history_independent toy toyRoot toyOps (.findPath 1 4 { maxDiameter := some 2 })
+    ⟨3, 5, 42, 1024, some 2, none⟩ (by decide)
+/-- non-vacuity of `history_independent_root` -/
+example : view (step toy (run toy (fresh toyRoot) toyOps) (.findPath 0 3 {})) =
+    view (step toy (fresh toyRoot) (.findPath 0 3 {})) :=
+  history_independent_root toy toyRoot toyOps _ rfl
+/-- the value in question: the radius-50 ball of definition 2, not the radius-1 ball cached by the first operation -/
+example : view (step toy (run toy (fresh toyRoot) toyOps) (.findPath 0 3 {})) = .value (2050 + 3 + 7) := by decide
+
+/-- THE DEFECT THAT WAS REPAIRED: with a cache that ignores the limits (`keyed = false`) history independence fails —
+after `find_path(start, max_diameter=1)` the call `find_path(start)` answers from the radius-1 ball -/
+example : view (stepWith false toy (runWith false toy (fresh toyRoot) [.findPath 0 3 { maxDiameter := some 1 }])
+      (.findPath 0 3 {})) ≠
+    view (stepWith false toy (fresh toyRoot) (.findPath 0 3 {})) := by decide
+example : view (stepWith false toy (runWith false toy (fresh toyRoot) [.findPath 0 3 { maxDiameter := some 1 }])
+      (.findPath 0 3 {})) = .value (2001 + 3 + 7) ∧
+    view (stepWith false toy (fresh toyRoot) (.findPath 0 3 {})) = .value (2050 + 3 + 7) := by decide
+
+/-- non-vacuity of `copies_share_hashing` / `inverted_copy_cached` on the session after `toyOps` -/
+example : (step toy (run toy (fresh toyRoot) toyOps) (.takeInverted 0)).2 = .obj 1 := by decide
+example : (step toy (run toy (fresh toyRoot) toyOps) (.modifiedCopy 1 77)).2 = .obj 5 := by decide
+
+end Cv.Session
